@@ -563,7 +563,19 @@ class Spec:
                 consumed = src.len.sub(tup.elems[2].len)
                 yr = tup.elems[1]
                 tainted = isinstance(yr, VInt) and any(SYMTAB.syms[s_].taint for s_, _ in yr.form.terms)
-                interp.events.append(('parse_year', st.num.rng(ml.form), tainted, st.num.rng2(consumed)))
+                # the clock-derived part of a completed year: terms M*Div(current year, M)
+                mods = None
+                if isinstance(yr, VInt) and tainted:
+                    mods = []
+                    for s_, k_ in yr.form.terms:
+                        info = SYMTAB.syms[s_]
+                        if not info.taint:
+                            continue
+                        if info.kind == 'div' and isinstance(info.data, tuple) and info.data[1] == k_:
+                            mods.append(k_)
+                        else:
+                            mods.append(None)
+                interp.events.append(('parse_year', st.num.rng(ml.form), tainted, st.num.rng2(consumed), mods))
             return None
         if key == 'date::Date::date_to_iso_year' and isinstance(ret, VInt):
             # K3: the ISO year of a date in 0001-01-01..9999-12-31 is in 1..=9999
